@@ -120,8 +120,12 @@ class CrashPlan:
     part = 0
 PLAN = CrashPlan()
 class TmpFile:
+    """the temp file of write_head with the buffering a real text file has: what write() is given reaches the file system
+    only when the file is flushed or closed, and a process that dies first (Crash) takes the buffer with it - so a
+    rename that happens BEFORE the close publishes an empty head"""
     def __init__(self, f):
         self.f = f
+        self.buf = []
     def __enter__(self):
         return self
     def write(self, s):
@@ -129,9 +133,21 @@ class TmpFile:
             n = 0 if PLAN.part == 0 else len(s) if PLAN.part == 2 else max(1, len(s) // 2)
             self.f.write(s[:n]); self.f.close()
             raise Crash()
-        return self.f.write(s)
-    def __exit__(self, *a):
+        self.buf.append(s)
+        return len(s)
+    def flush(self):
+        for s in self.buf:
+            self.f.write(s)
+        self.buf = []
+        self.f.flush()
+    def close(self):
+        self.flush()
         self.f.close()
+    def __exit__(self, *a):
+        if a[0] is not None and issubclass(a[0], Crash):
+            self.f.close()                 # the process is dead: nothing buffered is written
+            return False
+        self.close()
         if PLAN.k == 3 and a[0] is None:
             raise Crash()
         return False
